@@ -60,6 +60,28 @@ end GoArr
     the token `t` (what it is or points to is not modelled) -/
 abbrev GoAny := Option Nat
 
+/-- a Go map as an association list without duplicate keys (the newest binding first). Only
+    lookups, insertions, deletions and `len` are translated, never iteration, so the order of the
+    entries is not observable. -/
+structure GoMap (K V : Type) where
+  entries : List (K × V)
+deriving Repr, DecidableEq
+
+instance {K V : Type} : Inhabited (GoMap K V) := ⟨⟨[]⟩⟩
+
+namespace GoMap
+variable {K V : Type} [DecidableEq K]
+/-- `v, ok := m[k]` -/
+def find (m : GoMap K V) (k : K) : Option V := (m.entries.find? (fun p => p.1 == k)).map (·.2)
+/-- `delete(m, k)` -/
+def delete (m : GoMap K V) (k : K) : GoMap K V := ⟨m.entries.filter (fun p => !(p.1 == k))⟩
+/-- `m[k] = v` (never panics for a non-nil map) -/
+def set (m : GoMap K V) (k : K) (v : V) : Option (GoMap K V) := some ⟨(k, v) :: (m.delete k).entries⟩
+def get (m : GoMap K V) (k : K) [Inhabited V] : Option V := some ((m.find k).getD default)
+/-- `len(m)` -/
+def len (m : GoMap K V) : Nat := m.entries.length
+end GoMap
+
 /-- an `int` used as an index: negative panics -/
 def GoInt.toIndex (i : Int) : Option Nat := if 0 ≤ i then some i.toNat else none
 
